@@ -239,6 +239,32 @@ func (s *ownerSet) claim(key string, content [32]byte, v int) (conflicts []int) 
 	return
 }
 
+// reportedKeys: violation keys raised so far in phase A. A collision that differs in several components, each of
+// which is ALREADY reported on its own under the same clause, is counted under the first of those keys instead of
+// opening a combination key (two independent uncommitted fields perturbed together are not a third defect). The
+// single perturbations are enumerated before the pairs, so this is deterministic.
+var (
+	reportedMu   sync.Mutex
+	reportedKeys = map[string]bool{}
+)
+
+func rootCauseKey(prefix, sig string) string {
+	reportedMu.Lock()
+	defer reportedMu.Unlock()
+	parts := strings.Split(sig, ",")
+	if len(parts) > 1 {
+		all := true
+		for _, p := range parts {
+			all = all && reportedKeys[prefix+p]
+		}
+		if all {
+			return prefix + parts[0]
+		}
+	}
+	reportedKeys[prefix+sig] = true
+	return prefix + sig
+}
+
 // minimalSignature names a collision by the smallest difference to any of the conflicting owners, so that a
 // second, unrelated perturbation applied alongside does not leak into the key.
 func minimalSignature(mine string, conflicts []int, dumpOf func(int) string, sectionOnly bool) (string, int) {
@@ -401,6 +427,8 @@ func checkIdentity(r *vk.Run, c blockCfg, sizes []int, pairs bool, st *identStat
 		}
 		return variantName(ps, vars[i])
 	}
+	dumpMemo := map[int]string{} // dumps are only rebuilt to name a collision; owners recur
+	baseDumpStr := dump(base)
 	for i, res := range results {
 		v := vars[i]
 		if res.panic != "" {
@@ -417,10 +445,17 @@ func checkIdentity(r *vk.Run, c blockCfg, sizes []int, pairs bool, st *identStat
 			local.sameContent++
 		}
 		dumpOf := func(j int) string {
-			if j < 0 {
-				return dump(base)
+			if d, ok := dumpMemo[j]; ok {
+				return d
 			}
-			return dumpOfVariant(base, ps, vars[j])
+			d := baseDumpStr
+			if j >= 0 {
+				d = dumpOfVariant(base, ps, vars[j])
+			}
+			if len(dumpMemo) < 4096 {
+				dumpMemo[j] = d
+			}
+			return d
 		}
 		// weaker clause: the part-set header alone (a hash of the serialization) differs for different content
 		for k, sz := range sizes {
@@ -429,7 +464,7 @@ func checkIdentity(r *vk.Run, c blockCfg, sizes []int, pairs bool, st *identStat
 			if o, ok := owners[k][key]; ok {
 				if o.dump != res.dump {
 					sig := diffSignature(dumpOf(i), dumpOf(o.v))
-					r.Violation("part-set-hash-collision:"+sig,
+					r.Violation(rootCauseKey("part-set-hash-collision:", sig),
 						fmt.Sprintf("block %v, part size %d: two blocks that differ in {%s} have the same part-set header: [%s] and [%s]", c, sz, sig, vname(i), vname(o.v)),
 						replayIdentity(c, ps, v, sizes))
 				}
@@ -447,7 +482,7 @@ func checkIdentity(r *vk.Run, c blockCfg, sizes []int, pairs bool, st *identStat
 			}
 			if conflicts := hashOwners[class].claim(res.ident.hash.String(), res.dump, i); len(conflicts) > 0 {
 				sig, o := minimalSignature(dumpOf(i), conflicts, dumpOf, false)
-				r.Violation("block-hash-collision:"+sig,
+				r.Violation(rootCauseKey("block-hash-collision:", sig),
 					fmt.Sprintf("block %v: two blocks that differ in {%s} have the same Block.Hash() %s: [%s] and [%s]", c, sig, res.ident.hash.String(), vname(i), vname(o)),
 					replayIdentity(c, ps, v, sizes))
 			}
@@ -460,7 +495,7 @@ func checkIdentity(r *vk.Run, c blockCfg, sizes []int, pairs bool, st *identStat
 			if conflicts := commitOwners[q].claim(res.commit[q].String(), res.sec[q+1], i); len(conflicts) > 0 {
 				sec := q + 1
 				sig, o := minimalSignature(sectionOf(dumpOf(i), sec), conflicts, func(j int) string { return sectionOf(dumpOf(j), sec) }, true)
-				r.Violation(commitName[q]+"-collision:"+sig,
+				r.Violation(rootCauseKey(commitName[q]+"-collision:", sig),
 					fmt.Sprintf("block %v: two different lists (they differ in {%s}) have the same %s %s: [%s] and [%s]", c, sig, commitName[q], res.commit[q].String(), vname(i), vname(o)),
 					replayIdentity(c, ps, v, sizes))
 			}
@@ -478,7 +513,7 @@ func checkIdentity(r *vk.Run, c blockCfg, sizes []int, pairs bool, st *identStat
 				}
 			}
 			sig := strings.Join(sigs, ",")
-			r.Violation("validatebasic-accepts-perturbed-body:"+sig,
+			r.Violation(rootCauseKey("validatebasic-accepts-perturbed-body:", sig),
 				fmt.Sprintf("block %v: %s changes the body {%s}, the header fields that commit to it are not recomputed, and ValidateBasic accepts the block", c, vname(i), sig),
 				replayIdentity(c, ps, v, sizes))
 		}
